@@ -1,5 +1,6 @@
 """C17 — orientation and in-sphere tests return the exact sign (DESIGN §6 C17)."""
 import itertools
+import math
 import os
 import vlib
 
@@ -443,31 +444,76 @@ def gen_ops(rng, n_o, n_i, n_e):
     return ops, cats
 
 
+def _offset(rng):
+    """one anchor component: 0, or +-(1e-3 .. 1e6), dyadic or not"""
+    r = rng.random()
+    if r < 0.25:
+        return 0.
+    mag = 10 ** rng.uniform(-3, 6)
+    if rng.random() < 0.3:
+        mag = 2. ** round(math.log2(mag))                       # dyadic
+    elif rng.random() < 0.5:
+        mag = round(mag, rng.randint(0, 3)) or mag              # short decimal (50.5, 70.7, 313.8)
+    return mag * rng.choice([1., -1.])
+
+
+def _side(rng, base):
+    f = rng.choice([1., 1., rng.randint(1, 9) / 10., rng.random() + 0.01, 10 ** rng.uniform(-3, 0)])
+    return base * f
+
+
+def box_generators(rng, a, sd):
+    """generators on the lower faces / corners, just inside the upper faces, in the middle and random"""
+    fr = [0., 0., 0.5, 1. - 2. ** -20, rng.random(), rng.random()]
+    pts = []
+    for _ in range(rng.randint(1, 8)):
+        p = []
+        for c in range(3):
+            x = a[c] + rng.choice(fr) * sd[c]
+            top = a[c] + sd[c]
+            if not (x >= a[c]):
+                x = a[c]
+            if not (x < top):
+                x = a[c] + 0.5 * sd[c]
+            if not (a[c] <= x < top):
+                x = a[c]
+            p.append(x)
+        pts.append(tuple(p))
+    return pts
+
+
 def gen_boxes(rng, n):
-    """simulation boxes (anchor, sides) as the parameter files give them: unit-like, cubic and
-    non-cubic, small and astrophysical scales, anchors at 0, at -side/2 and anywhere"""
+    """simulation boxes (anchor, sides) with generators: the boxes of the parameter files and tests,
+    then anchors with INDEPENDENT per-axis offsets over nine decades (0, +-1e-3..1e6, dyadic, short
+    decimals, generic) and sides with independent per-axis factors (aspect ratios up to 1e3)"""
     fixed = [((0., 0., 0.), (1., 1., 1.)), ((-0.5, -0.5, -0.5), (1., 1., 1.)), ((0., 0., 0.), (0.3, 0.3, 0.3)),
              ((0., 0., 0.), (3., 1., 2.)), ((-5., -5., -5.), (10., 10., 10.)),
-             ((-1.543e17, -1.543e17, -1.543e17), (3.086e17, 3.086e17, 3.086e17))]
+             ((-1.543e17, -1.543e17, -1.543e17), (3.086e17, 3.086e17, 3.086e17)),
+             ((0., 50.5, 0.), (0.3, 0.3, 0.3)), ((0., 0., 70.7), (0.1, 0.1, 0.1)),
+             ((-120.9, 313.8, 0.), (1.2, 0.6, 1.5))]
     out = []
     for k in range(n):
         if k < len(fixed):
             a, sd = fixed[k]
         else:
-            scale = 10 ** rng.uniform(-3, 19) if rng.random() < 0.5 else rng.choice([1., 0.1, 10., 3.086e16])
-            if rng.random() < 0.5:
-                s0 = scale * rng.choice([1., rng.random() + 0.01, rng.randint(1, 9) / 10.])
+            base = rng.choice([1., 0.1, 0.3, 10., 10 ** rng.uniform(-3, 3), 3.086e16 * 10 ** rng.uniform(0, 2)])
+            if rng.random() < 0.4:
+                s0 = _side(rng, base)
                 sd = (s0, s0, s0)
             else:
-                sd = tuple(scale * (rng.random() + 0.01) for _ in range(3))
-            kind = rng.choice(["zero", "centred", "any"])
+                sd = tuple(_side(rng, base) for _ in range(3))
+            kind = rng.choice(["zero", "centred", "independent", "independent", "independent", "scaled"])
             if kind == "zero":
                 a = (0., 0., 0.)
             elif kind == "centred":
                 a = tuple(-0.5 * x for x in sd)
+            elif kind == "independent":
+                a = tuple(_offset(rng) for _ in range(3))
             else:
-                a = tuple(scale * rng.uniform(-3, 3) for _ in range(3))
-        out.append("box " + " ".join(str(vlib.f2bits(x)) for x in a + sd))
+                a = tuple(base * rng.uniform(-3, 3) for _ in range(3))
+        gens = box_generators(rng, a, sd)
+        vals = list(a) + list(sd) + [c for g in gens for c in g]
+        out.append("box " + " ".join(str(vlib.f2bits(x)) for x in vals))
     return out
 
 
@@ -493,11 +539,12 @@ def run(ctx):
         "the widths 256 / 278 are read from the real typedefs on every run",
         "the compiler evaluates the double expressions as written (harness built with -O1 -ffp-contract=off; the project's "
         "own build does not enable -ffast-math)",
-        "the theorems are about coordinates in [1,2); that the Voronoi construction only passes such coordinates "
-        "(NewVoronoiGrid rescales generators and box, NewVoronoiBox recomputes the enclosing tetrahedron and the wall copies "
-        "in rescaled coordinates) is not modelled: it is checked on the implementation for generated simulation boxes "
-        "(stream 'rescale', oracle rescaled-coordinate-outside-[1,2)); outside that range only the exact routines "
-        "(mantissa field only) are compared",
+        "the predicate theorems are about coordinates in [1,2); for the rescaling that establishes this (NewVoronoiBox tetrahedron, "
+        "NewVoronoiGrid constructor) Lean proves the real-arithmetic statement (rescale_in_range, rescale_box_in_range: every axis "
+        "with its own padded extent maps into [1,2), monotone); that the ROUNDED evaluation stays in [1,2) is not proved: it is "
+        "checked on the implementation for generated simulation boxes (stream 'rescale': values stored by the real constructor "
+        "bit-identical to the Lean Float model of the same formulas, oracle rescaled-coordinate-outside-[1,2) / rescaling-not-monotone); "
+        "outside [1,2) only the exact routines (mantissa field only) are compared",
     ]
     ok = ctx.obligations("CMacVerif.Props.C17", ["drv_c17"])
     h = vlib.build_harness("c17", extra=[os.path.join(vlib.REPO, "src", "NewVoronoiGrid.cpp"),
@@ -519,8 +566,10 @@ def run(ctx):
         "real exact and adaptive routine and by the Lean model, and on the implementation additionally under all transpositions "
         "(must negate) and all 3-cycles (must keep) of the points; distinct = different op line; non-trivial = the adaptive routine's "
         "filter was undecided (fallback to exact arithmetic) or the configuration is exactly degenerate; "
-        "second stream 'rescale' (implementation-level oracle, never non-trivial): simulation boxes (anchor, sides) for which the real "
-        "NewVoronoiGrid constructor is run and every coordinate it would hand to the predicates is checked to lie in [1,2)")
+        "second stream 'rescale' (never counted as non-trivial): simulation boxes (anchor with independent per-axis offsets 0, +-1e-3..1e6, "
+        "dyadic / short decimal / generic, sides with independent per-axis factors, generators on lower faces and corners, next to the "
+        "upper faces and inside) for which the real NewVoronoiGrid constructor is run; the stored rescaled box, tetrahedron and generators "
+        "must equal the Lean Float model bit for bit, every coordinate handed to the predicates must lie in [1,2), the map must be monotone per axis")
     ctx.cov["tolerance"] = "none: the observable is the returned sign, answers must be identical"
     if not ok:
         return 0
@@ -529,13 +578,16 @@ def run(ctx):
                                          oracle_key=oracle_key)
     # second stream, implementation-level oracle only: the precondition "coordinates in [1,2)" as the
     # real NewVoronoiGrid / NewVoronoiBox establish it for the simulation box
-    boxes = gen_boxes(ctx.rng, ctx.budget(400, 6000))
+    boxes = gen_boxes(ctx.rng, ctx.budget(3000, 60000))
     nb, bimpl, bmodel, borc = ctx.correspond("rescale", h, vlib.driver("drv_c17"), boxes, oracle_key=oracle_key)
     ctx.count(len(boxes))
     ctx.cov["rescale_boxes"] = len(boxes)
-    ctx.cov["rescale_boxes_out_of_range"] = len(borc)
-    for b in boxes:
+    ctx.cov["rescale_boxes_failing_oracle"] = len(borc)
+    ctx.cov["rescale_bit_exact_rate"] = sum(1 for x, y in zip(bimpl, bmodel) if x == y) / max(1, len(boxes))
+    for b, il in zip(boxes, bimpl):
         ctx.distinct(b, nontrivial=False)
+    if boxes and bimpl:
+        ctx.sample({"family": "rescale", "op": boxes[min(7, len(boxes) - 1)], "impl": bimpl[min(7, len(bimpl) - 1)]})
     same = 0
     fam = {}
     for op, cat, il, ml in zip(ops, cats, impl, model):
@@ -592,12 +644,12 @@ MANIFEST = dict(
          "fixed-width exact routine) against the real routines on random, exactly degenerate and 1..1000-ulp perturbed "
          "configurations: returned signs identical; property oracle (adaptive = exact, transposition negates, 3-cycle keeps) "
          "evaluated on the implementation.  The precondition 'coordinates in [1,2)' is checked on the real NewVoronoiGrid / "
-         "NewVoronoiBox rescaling for generated simulation boxes (oracle only; it currently FAILS: the enclosing tetrahedron recomputed "
-         "in rescaled coordinates gets vertices 2.0000000000000004 or 0.9999999999999998, reported as a violation until fixed or recorded).",
+         "NewVoronoiBox rescaling for generated simulation boxes (rescale_in_range / rescale_box_in_range in real arithmetic; the rounded "
+         "evaluation by bit-exact comparison with the Lean Float model of the same formulas plus range and monotonicity oracle).",
     note="Trusted: Lean kernel + 3 standard axioms; hand model of ExactGeometricTests.hpp; IEEE arithmetic abstracted by the "
          "standard model |fl x - x| <= 2^-53 |x| (no underflow possible for coordinates in [1,2)); negation/abs exact; Boost's "
          "unchecked fixed-width integers modelled as magnitude truncation; the branch taken inside the real adaptive routine is "
-         "not observable (only the returned sign is), the branch histogram comes from the bit-identical Lean Float evaluation; the rescaling "
-         "of NewVoronoiGrid / NewVoronoiBox into [1,2) is not modelled in Lean, only checked on the implementation.",
+         "not observable (only the returned sign is), the branch histogram comes from the bit-identical Lean Float evaluation; that the "
+         "rounded rescaling of NewVoronoiGrid / NewVoronoiBox stays inside [1,2) is checked on generated boxes, proved only in real arithmetic.",
     technique="Lean 4: ring identities, Matrix.det_permute, operation-by-operation magnitude tracking, running "
               "floating-point error analysis over an abstract rounding function + exact differential correspondence")
